@@ -24,8 +24,13 @@ Record pset := {
 }.
 
 (* static size_t calc_reserve(size_t sz, size_t res)
-     { if (!sz) return res; const size_t val(sz * res / 100); return val ? val : 1; } *)
+     { if (!sz) return res ? res : 1; const size_t val(sz * res / 100); return val ? val : 1; }
+   (since 432f45d; the original returned res for an empty set, i.e. 0 for reserve 0) *)
 Definition calc_reserve (sz res : nat) : nat :=
+  if sz =? 0 then (if res =? 0 then 1 else res) else
+  let val := sz * res / 100 in if val =? 0 then 1 else val.
+
+Definition calc_reserve_orig (sz res : nat) : nat :=
   if sz =? 0 then res else
   let val := sz * res / 100 in if val =? 0 then 1 else val.
 
@@ -36,14 +41,24 @@ Definition ps_init_array (tab : list elem) (reserve : nat) : pset :=
   let rsz := sz + calc_reserve sz reserve in
   {| p_arr := tab ++ repeat junk (rsz - sz); p_sz := sz; p_rsz := rsz; p_reserve := reserve; p_hash := None |}.
 
-(* explicit presorted_set(sz = 0, reserve): _sz(sz), _rsz(_sz + calc_reserve(_sz, _reserve)), _arr()
-   -- note that _sz is set to the argument although nothing is allocated *)
+(* explicit presorted_set(sz = 0, reserve): _sz(), _rsz(sz + calc_reserve(sz, _reserve)), _arr()
+   (since a311e58: an empty set with room for sz elements) *)
 Definition ps_init_explicit (sz reserve : nat) : pset :=
-  {| p_arr := []; p_sz := sz; p_rsz := sz + calc_reserve sz reserve; p_reserve := reserve; p_hash := None |}.
+  {| p_arr := []; p_sz := 0; p_rsz := sz + calc_reserve sz reserve; p_reserve := reserve; p_hash := None |}.
 
-(* presorted_set(arr_start, sz, ftha): _reserve(), _sz(sz), _arr(new FieldTrait[_sz]), _ftha(ftha)
-   -- _rsz is not initialised; recorded as 0, every use of it is a fault *)
+(* presorted_set(arr_start, sz, ftha): _reserve(), _sz(sz), _rsz(_sz + calc_reserve(_sz, _reserve)),
+   _arr(new FieldTrait[_rsz]), _ftha(ftha)     (since b713cdd) *)
 Definition ps_init_hash (tab : list elem) : pset :=
+  let sz := length tab in
+  let rsz := sz + calc_reserve sz 0 in
+  {| p_arr := tab ++ repeat junk (rsz - sz); p_sz := sz; p_rsz := rsz; p_reserve := 0; p_hash := Some (map fst tab) |}.
+
+(* ---- the constructors as they were before the repairs (refutation witnesses only) ---- *)
+(* _sz(sz) although nothing is allocated; reserve 0 on an empty set gives _rsz = 0 *)
+Definition ps_init_explicit_orig (sz reserve : nat) : pset :=
+  {| p_arr := []; p_sz := sz; p_rsz := sz + calc_reserve_orig sz reserve; p_reserve := reserve; p_hash := None |}.
+(* _arr(new FieldTrait[_sz]), _rsz not initialised (recorded as 0; every use of it is a fault) *)
+Definition ps_init_hash_orig (tab : list elem) : pset :=
   {| p_arr := tab; p_sz := length tab; p_rsz := 0; p_reserve := 0; p_hash := Some (map fst tab) |}.
 
 (* ---- memory ---- *)
@@ -194,8 +209,15 @@ Definition ps_insert_gen (fixed : bool) (s : pset) (what : elem) : option (pset 
       end
     end.
 
-Definition ps_insert := ps_insert_gen true.
-Definition ps_insert_orig := ps_insert_gen false.
+(* insert(const_iterator what) { _ftha = nullptr;   // the hash array indexes the initial layout only   (b713cdd)
+     ... the routine above ... }
+   [ps_insert_gen] with a hash array still attached is the routine before b713cdd (a null insert position and
+   the uninitialised _rsz: a fault for every key that is not a duplicate). *)
+Definition detach (s : pset) : pset :=
+  {| p_arr := p_arr s; p_sz := p_sz s; p_rsz := p_rsz s; p_reserve := p_reserve s; p_hash := None |}.
+
+Definition ps_insert (s : pset) (what : elem) : option (pset * out) := ps_insert_gen true (detach s) what.
+Definition ps_insert_orig := ps_insert_gen false.      (* stale iterator after growing, before 5f81ca8 *)
 
 (* for (ptr = what_begin; ptr < what_end; ++ptr) if (!insert(ptr).second) break; *)
 Fixpoint ps_insert_range (s : pset) (es : list elem) : option pset :=
